@@ -69,13 +69,19 @@ package parser
 //@ pred srcAt(p *parser, pos token.Pos, text string) := inSrc(p, pos, text) &&
 //@        (forall i in 0..len(text) :: p.scanner.src[int(pos) - fileBase(p.file) + i] == text[i])
 //@
-//@ # the parser's error sink and the expression sub-parser are outside this proof (ASSUMED: error records and
-//@ # returns — its bailout panic after 10 errors is caught by the parser's entry points; ParseExprEx returns an
-//@ # expression or errors)
-//@ trusted (*parser).error
-//@   requires p != nil
+//@ # the expression sub-parser is outside this proof (ASSUMED: ParseExprEx returns an expression or errors).
+//@ # The parser's error sink (C13): it records at most one error, and without AllErrors it gives up (bailout panic,
+//@ # recovered by the entry points) once more than 10 errors are recorded, so the list never grows beyond 11. A
+//@ # caller that does not speak about panics is checked for the executions in which error returns.
+//@ func (*parser).error
+//@   option propagates yes
+//@   requires p != nil && p.file != nil
+//@   assume [errors-non-nil] forall i in 0..len(p.errors) :: p.errors[i] != nil
 //@   assigns p.errors, elems(p.errors)
+//@   panics_if [bailout] p.mode & AllErrors == 0 && len(p.errors) > 10
 //@   ensures fresh(p.errors) || samearray(p.errors, old(p.errors))
+//@   ensures [one-error] len(p.errors) == old(len(p.errors)) || len(p.errors) == old(len(p.errors)) + 1
+//@   ensures [bounded] p.mode & AllErrors == 0 ==> len(p.errors) <= 11 || len(p.errors) == old(len(p.errors))
 //@ trusted ParseExprEx
 //@   requires file != nil && 0 <= offset && offset <= len(src)
 //@   assigns nothing
@@ -157,3 +163,138 @@ package parser
 //@   at store val#2 assert [raw-literal-in-source] len(val) >= 2 && inSrc(p, pos, val)
 //@   at store val#2 assert [raw-literal-reread-from-source] forall i in 0..len(val) :: p.scanner.src[int(pos) - fileBase(p.file) + i] == val[i]
 //@   ensures [extra-parts-tile-the-literal-body] result != nil ==> tiled(0, len(result.Parts), sDone) && (val[0] == '"' ==> sDone == len(val) - 2)
+//@
+//@ # ---- C13 (the token-advance and error-recovery layer): no panic, progress, bounded re-synchronisation ----
+//@ # scOK(p): the embedded scanner satisfies the precondition of scanner.(*Scanner).Scan (scanner.inv, the file size
+//@ # and unitOK, restated over the fields of p.scanner).
+//@ pred scOK(p *parser) := p != nil && p.file != nil && p.scanner.file != nil &&
+//@        0 <= p.scanner.offset && p.scanner.offset <= p.scanner.rdOffset && p.scanner.rdOffset <= len(p.scanner.src) &&
+//@        (p.scanner.ch < 0 ==> p.scanner.ch == -1 && p.scanner.offset == len(p.scanner.src)) &&
+//@        (p.scanner.ch >= 0 ==> p.scanner.offset < p.scanner.rdOffset && p.scanner.rdOffset <= p.scanner.offset + 4 && p.scanner.ch <= 1114111) &&
+//@        (0 <= p.scanner.ch && p.scanner.ch < 128 ==> p.scanner.rdOffset == p.scanner.offset + 1 && rune(p.scanner.src[p.scanner.offset]) == p.scanner.ch) &&
+//@        (p.scanner.ch >= 128 ==> p.scanner.src[p.scanner.offset] >= 128) &&
+//@        fileSize(p.scanner.file) == len(p.scanner.src) &&
+//@        len(p.scanner.unitVal) <= p.scanner.offset &&
+//@        p.scanner.unitVal == string(p.scanner.src[p.scanner.offset-len(p.scanner.unitVal):p.scanner.offset])
+//@ # the shape of a comment token's text that consumeComment and next rely on
+//@ pred cmtOK(tok token.Token, lit string) := tok == token.COMMENT ==> len(lit) >= 1 && (lit[0] == '/' ==> len(lit) >= 2)
+//@ # pinv(p): what every function of the layer needs and keeps; an ungot token (p.old) is never a comment
+//@ pred scAtEnd(p *parser) := p.scanner.ch == -1 && !p.scanner.insertSemi && p.scanner.unitVal == ""
+//@ pred pinv(p *parser) := scOK(p) && cmtOK(p.tok, p.lit) && (p.old.pos != 0 ==> p.old.tok != token.COMMENT) &&
+//@        0 <= p.syncCnt && p.syncCnt <= 10 &&
+//@        ((p.old.pos == 0 ? p.tok : p.old.tok) == token.EOF ==> scAtEnd(p))
+//@ # rem(p): an upper bound of the number of tokens still to be delivered (4*(bytes left) + the scanner's pending
+//@ # semicolon/unit, + the current token, + an ungot token); 0 at EOF
+//@ spec scM(p *parser) int := 4*(len(p.scanner.src) - p.scanner.offset) + 2*b2i(p.scanner.unitVal != "") + b2i(p.scanner.insertSemi)
+//@ spec rem(p *parser) int := p.tok == token.EOF ? 0 : 1 + scM(p) + b2i(p.old.pos != 0)
+//@ # syncRank(p): how many more times advance may return at the current position without consuming a token
+//@ spec syncRank(p *parser) int := p.pos == p.syncPos ? 10 - p.syncCnt : 11
+//@
+//@ # trace output (p.trace) is not part of the claim
+//@ trusted (*parser).printTrace
+//@   assigns nothing
+//@
+//@ func (*parser).next0
+//@   requires pinv(p)
+//@   assigns p.pos, p.tok, p.lit, p.old, p.scanner
+//@   ensures [inv] pinv(p)
+//@   ensures [progress] old(p.tok) != token.EOF ==> rem(p) < old(rem(p))
+//@   ensures [eof-absorbing] old(p.tok) == token.EOF && old(p.old.pos) == 0 ==> p.tok == token.EOF
+//@   ensures [unget-cleared] p.old.pos == 0
+//@   ensures [sync-kept] p.syncPos == old(p.syncPos) && p.syncCnt == old(p.syncCnt)
+//@
+//@ func (*parser).consumeComment
+//@   requires pinv(p) && p.tok == token.COMMENT
+//@   assigns p.pos, p.tok, p.lit, p.old, p.scanner
+//@   ensures [inv] pinv(p)
+//@   ensures [progress] rem(p) < old(rem(p))
+//@   ensures [unget-cleared] p.old.pos == 0
+//@   ensures comment != nil
+//@ loop (*parser).consumeComment#1
+//@   invariant 0 <= i && i <= len(p.lit)
+//@   decreases len(p.lit) - i
+//@
+//@ func (*parser).consumeCommentGroup
+//@   requires pinv(p) && p.tok == token.COMMENT && n >= 0
+//@   assigns p.pos, p.tok, p.lit, p.old, p.scanner, p.comments, elems(p.comments)
+//@   ensures [inv] pinv(p)
+//@   ensures [progress] rem(p) < old(rem(p))
+//@   ensures [arrays] (fresh(p.comments) || samearray(p.comments, old(p.comments)))
+//@   ensures [unget-cleared] p.old.pos == 0
+//@ loop (*parser).consumeCommentGroup#1
+//@   invariant pinv(p) && (list == nil || fresh(list)) && (len(list) > 0 ==> p.old.pos == 0)
+//@   invariant len(list) == 0 ==> p.tok == token.COMMENT && endline == lineU(p.file, p.pos) && rem(p) == old(rem(p))
+//@   invariant len(list) > 0 ==> rem(p) < old(rem(p))
+//@   decreases rem(p)
+//@
+//@ func (*parser).next
+//@   requires pinv(p)
+//@   assigns p.pos, p.tok, p.lit, p.old, p.scanner, p.comments, elems(p.comments), p.leadComment, p.lineComment
+//@   ensures [inv] pinv(p)
+//@   ensures [progress] old(p.tok) != token.EOF ==> rem(p) < old(rem(p))
+//@   ensures [eof-absorbing] old(p.tok) == token.EOF && old(p.old.pos) == 0 ==> p.tok == token.EOF
+//@   ensures [unget-cleared] p.old.pos == 0
+//@   ensures [no-comment] p.tok != token.COMMENT
+//@   ensures [arrays] (fresh(p.comments) || samearray(p.comments, old(p.comments)))
+//@   ensures [sync-kept] p.syncPos == old(p.syncPos) && p.syncCnt == old(p.syncCnt)
+//@ loop (*parser).next#1
+//@   invariant pinv(p) && (old(p.tok) != token.EOF ==> rem(p) < old(rem(p))) && (fresh(p.comments) || samearray(p.comments, old(p.comments)))
+//@   invariant p.old.pos == 0 && (old(p.tok) == token.EOF && old(p.old.pos) == 0 ==> p.tok == token.EOF)
+//@   decreases rem(p)
+//@
+//@ # the deferred handlers of the entry points: whatever the parse did, the error list is sorted last (a panic
+//@ # that is not a bailout is raised again; the parse functions themselves are outside the claim)
+//@ func parseFile$1
+//@   panics_if [repanic-non-bailout] true
+//@   ensures [errors-sorted] errSorted == 1
+//@ func ParseExprFrom$1
+//@   panics_if [repanic-non-bailout] true
+//@   ensures [errors-sorted] errSorted == 1
+//@
+//@ func (*parser).errorExpected
+//@   requires p != nil && p.file != nil
+//@   assigns p.errors, elems(p.errors)
+//@
+//@ # the expect family: the token is consumed whether or not it is the expected one ("make progress")
+//@ func (*parser).expect
+//@   requires pinv(p)
+//@   assigns p.pos, p.tok, p.lit, p.old, p.scanner, p.comments, elems(p.comments), p.leadComment, p.lineComment, p.errors, elems(p.errors)
+//@   ensures [inv] pinv(p)
+//@   ensures [progress] old(p.tok) != token.EOF ==> rem(p) < old(rem(p))
+//@   ensures [eof-absorbing] old(p.tok) == token.EOF && old(p.old.pos) == 0 ==> p.tok == token.EOF
+//@   ensures [pos] result == old(p.pos)
+//@ func (*parser).expect2
+//@   requires pinv(p)
+//@   assigns p.pos, p.tok, p.lit, p.old, p.scanner, p.comments, elems(p.comments), p.leadComment, p.lineComment, p.errors, elems(p.errors)
+//@   ensures [inv] pinv(p)
+//@   ensures [progress] old(p.tok) != token.EOF ==> rem(p) < old(rem(p))
+//@   ensures [pos] pos == (old(p.tok) == tok ? old(p.pos) : 0)
+//@ func (*parser).expectIn
+//@   requires pinv(p)
+//@   assigns p.pos, p.tok, p.lit, p.old, p.scanner, p.comments, elems(p.comments), p.leadComment, p.lineComment, p.errors, elems(p.errors)
+//@   ensures [inv] pinv(p)
+//@   ensures [progress] old(p.tok) != token.EOF ==> rem(p) < old(rem(p))
+//@ func (*parser).expectClosing
+//@   requires pinv(p)
+//@   assigns p.pos, p.tok, p.lit, p.old, p.scanner, p.comments, elems(p.comments), p.leadComment, p.lineComment, p.errors, elems(p.errors)
+//@   ensures [inv] pinv(p)
+//@   ensures [progress] old(p.tok) != token.EOF ==> rem(p) < old(rem(p))
+//@ # expectSemi consumes nothing before a closing ')' or '}' (the caller consumes that one); otherwise it makes
+//@ # progress in the sense of advance
+//@ func (*parser).expectSemi
+//@   requires pinv(p)
+//@   assigns p.pos, p.tok, p.lit, p.old, p.scanner, p.comments, elems(p.comments), p.leadComment, p.lineComment, p.errors, elems(p.errors), p.syncPos, p.syncCnt
+//@   ensures [inv] pinv(p)
+//@   ensures [progress] old(p.tok) != token.EOF && old(p.tok) != token.RPAREN && old(p.tok) != token.RBRACE ==>
+//@           rem(p) < old(rem(p)) || (rem(p) == old(rem(p)) && syncRank(p) < old(syncRank(p)))
+//@
+//@ func (*parser).advance
+//@   requires pinv(p)
+//@   assigns p.pos, p.tok, p.lit, p.old, p.scanner, p.comments, elems(p.comments), p.leadComment, p.lineComment, p.syncPos, p.syncCnt
+//@   ensures [inv] pinv(p)
+//@   ensures [stops-at-sync-token] p.tok == token.EOF || to[p.tok]
+//@   ensures [sync-progress] old(p.tok) != token.EOF ==> rem(p) < old(rem(p)) || (rem(p) == old(rem(p)) && syncRank(p) < old(syncRank(p)))
+//@ loop (*parser).advance#1
+//@   invariant pinv(p) && rem(p) <= old(rem(p)) && (fresh(p.comments) || samearray(p.comments, old(p.comments)))
+//@   invariant rem(p) == old(rem(p)) ==> p.pos == old(p.pos) && p.syncPos == old(p.syncPos) && p.syncCnt == old(p.syncCnt) && p.tok == old(p.tok)
+//@   decreases rem(p)
